@@ -18,3 +18,12 @@ Theorem C05_paid_at_most_once : C05_paid_at_most_once_stmt.
 Proof. exact C05_paid_at_most_once_proof. Qed.
 Print Assumptions C05_paid_at_most_once.
 
+(* the boolean monitor that judges implementation steps for this property is passed by every
+   step of the model (so the monitor demands nothing the theorems do not) *)
+From NasimV Require Import Monitors.
+From NasimV.proofs Require Import PMonitors.
+Theorem monitor_C05_sound :
+  forall sc st a k, wf_scenario sc = true -> wf_state sc st = true -> act_ok sc a ->
+    ok_C05 sc (model_rec sc st a k) = true.
+Proof. intros sc st a k WF WS A. exact (model_passes_C05 sc st a k WF WS A). Qed.
+Print Assumptions monitor_C05_sound.
